@@ -97,7 +97,7 @@ def build_program_case(rng, n_blocks=None, allow=None, main_modes=('usr', 'sys',
         mpu[0] = (1 | 31 << 1, 0, 3 << 8)
         mpu[5] = (1 | 8 << 1, G.STACKS + 0x200, 1 << 8)
         mpu[6] = (1 | 9 << 1, G.STACKS + 0x400, 1 << 8)
-        regs['sys'].update(G.mpu_sys(mpu))
+        regs['sys'].update(G.mpu_sys(mpu, nu=rng.getrandbits(1)))
         regs['sys']['sctlr'] = G.sctlr_value(m=1, a=0, u=1, te=te, v=0, br=1, ee=ee)
     if cfg['have_security_ext'] and not hyp_route and rng.random() < 0.5:
         # Security Extensions routing: IRQ and/or FIQ are taken to Monitor mode (handlers behind MVBAR), from a Secure or Non-secure main program
@@ -133,10 +133,41 @@ def gen_irq_return(rng):
         # bursts: a FIQ right behind an IRQ lands inside the IRQ handler (nesting)
         t = events[0]['tick']
         events.append({'tick': t + rng.randrange(1, 6), 'core': 0, 'kind': 'fiq'})
-    events.sort(key=lambda e: e['tick'])
+    for kind_ in ('irq', 'fiq'):
+        if meta['returns'].get(kind_) == 'spsr_nest':
+            # every activation of the re-entrant handler keeps 24-28 bytes on a 128-byte stack: at most three requests of that kind per run
+            keep = [e for e in events if e['kind'] == kind_][:2]
+            events = [e for e in events if e['kind'] != kind_ or any(e is k_ for k_ in keep)]
+    for e in list(events):
+        if meta['returns'].get(e['kind']) == 'spsr_nest' and rng.random() < 0.7 and sum(1 for x in events if x['kind'] == e['kind']) < 3:
+            # the same line again while the re-entrant handler runs (see prog.py 'spsr_nest'): nests into the same mode
+            events.append({'tick': e['tick'] + rng.randrange(2, meta['handlers'][e['kind']][2] + 2), 'core': 0, 'kind': e['kind']})
     hl = sum(v[2] for v in meta['handlers'].values())
-    return {'scenario': 'irq_return', 'cores': [core], 'meta': meta, 'events': events, 'clean_ticks': n,
+    grant = None
+    if events and core['config']['memory_system_architecture'] == 'PMSA' and rng.random() < 0.3:
+        # faults INSIDE the handlers: the MPU region over the IRQ (or FIQ) handler's own stack slot is switched to no-access while that handler
+        # runs, so one of its stack accesses - the PUSH / SRS of the prologue, or a word of the RFE / LDM ^ / POP of the return sequence itself -
+        # takes a Data Abort; the abort handler (own stack) asks for the access to be granted and retries the instruction with its standard return
+        sysr = core['regs']['sys']
+        if 'drsrs' not in sysr:
+            mpu = [(0, 0, 0)] * 12
+            mpu[0] = (1 | 31 << 1, 0, 3 << 8)
+            sysr.update(G.mpu_sys(mpu))
+            sysr['sctlr'] = G.sctlr_value(m=1, a=0, u=1, te=meta['te'], v=0, br=1, ee=meta.get('ee', 0))
+        which = rng.choice(['irq', 'irq', 'fiq'])
+        for nme, v in (('drsrs', 7 << 1), ('drbars', G.STACKS + (0x300 if which == 'irq' else 0x200)), ('dracrs', 0)):
+            sysr[nme] = list(sysr[nme])
+            sysr[nme][10] = v
+        grant = 10
+        for e in [e for e in events if e['kind'] == which]:
+            events.append({'tick': e['tick'] + rng.randrange(1, meta['handlers'][which][2] + 3), 'core': 0, 'kind': 'sys', 'name': 'drsrs', 'index': 10, 'value': 7 << 1 | 1,
+                           'tag': 'mpu-revoke'})
+    events.sort(key=lambda e: e['tick'])
+    case = {'scenario': 'irq_return', 'cores': [core], 'meta': meta, 'events': events, 'clean_ticks': n,
             'max_ticks': n + (len(events) + 2) * (hl + 8) + 64}
+    if grant is not None:
+        case['grant_region'] = grant
+    return case
 
 
 class ViewRecorder:
@@ -196,6 +227,10 @@ class ReturnChecker:
             # the handler's code was left without a new exception entry: this is the exception return (it may return to the mode it
             # runs in, and it may have changed mode itself with CPS on the way)
             returned = ha[0] <= rec['pre_pc'] < ha[0] + ha[1] and not (ha[0] <= ppc < ha[0] + ha[1]) and not entered
+            if resume is not None and ha[0] <= resume < ha[0] + ha[1]:
+                # a nested entry of the same handler (re-entrant 'spsr_nest' form): its return jumps BACK to the interrupted point of the outer
+                # activation, inside the same code range (handlers contain no backward branches)
+                returned = ha[0] <= rec['pre_pc'] < ha[0] + ha[1] and ppc == resume and ppc <= rec['pre_pc'] and not entered
         else:
             returned = pre_mode == hmode and post_mode != hmode and not entered
         if returned:
@@ -226,6 +261,13 @@ def run_program(case, events, observers_extra=()):
     vr = ViewRecorder(case['meta'])
     rc = ReturnChecker(mon, case['meta'])
     b.observers = [mon, vr, rc, RangeMonitor(report=False), ModeMonitor(M.full_config(cfg))] + list(observers_extra)
+    if case.get('grant_region') is not None:
+        arm = b.cores[0].arm
+
+        def grant():
+            arm.registers.drsrs[case['grant_region']].value &= ~1
+            b.count('fault.mpu-grant')
+        M.device_at(arm, G.INTC).on_grant = grant
     b.run()
     return b, vr
 
@@ -467,6 +509,9 @@ def run_psr_walk(case):
                     elif op.get('dp', 0) & 1 and cur != 0x1a:
                         # <op>S pc, Rn, <operand2> with ANY Rn (lr, sp, pc, r0-r12), every data-processing operation, immediate and register
                         # operand: B9.3.20 'SUBS PC, LR and related instructions'
+                        if (op['dp'] >> 12) & 7 == 0:
+                            # results at the very ends of the address space (and with low bits set: BranchWritePC aligns them away)
+                            lr = [0, 0xFFFFFFFF, 0xFFFFFFFC, 0xFFFFFFFE, 0x80000000, 1, 2, 3][(op['dp'] >> 9) & 7]
                         w, sets, lr = dp_return(op['dp'], lr, (pre_cpsr >> 29) & 1, (pre_regs['PC'] + 8) & 0xFFFFFFFF)
                         for rx_, vx_ in sets.items():
                             r.set(rx_, vx_)
